@@ -831,7 +831,7 @@ class Gen:
         n = self.length(r)
         cont = self.rng.choice(['41', '44', '1', '38;2;1;2;3', '31', '4', '48;5;17'])
         self.do({'op': 'apply', 'r': r, 'sets': [{'k': 'aset', 'v': cont}], 'S': [cont], 'start': 0, 'end': None, 'top': self.rng.random() < 0.5})
-        pool = [c for c in ['1', '3', '4', '9', '53', '5', '7', '31', '58;5;3', '38;5;208', '21', '2'] if c != cont]
+        pool = [c for c in ['1', '3', '4', '9', '53', '5', '7', '31', '58;5;3', '38;5;208', '21', '2', '13', '11', '26', '51'] if c != cont]
         k = self.rng.randint(3, 6)
         S = self.rng.sample(pool, k)
         j = self.rng.randint(2, n - 1)
@@ -1118,7 +1118,7 @@ class Gen:
     def g_reparse(self):
         r = self.pick()
         if r and self.room(2):
-            self.do({'op': 'reparse', 'r': r, 'cls': 'A' if self.rng.random() < 0.3 else 'S'})
+            self.do({'op': 'reparse', 'r': r, 'cls': 'A' if self.rng.random() < 0.3 else 'S', 'opt': self.rng.random() < 0.75})
 
     def g_simplify(self):
         r = self.pick()
@@ -1402,6 +1402,48 @@ def many_end_cases():
             cases.append([o + [c], [c], o[:2] + [c]])
             cases.append([[c], [c] + o, [c]])
     return cases
+
+
+def pair_end_cases(all_second=False):
+    """Settings of an ordered pair of groups (g, h) beginning together and ending together inside the text - alone,
+    and while a third setting stays on: the order in which the renderer clears them must survive render -> parse."""
+    cases = []
+    gs = sorted(GROUP_CODES)
+    for g in gs:
+        for h in gs:
+            if g == h:
+                continue
+            third = next(k for k in ('ital', 'cross', 'over') if k not in (g, h))
+            K = GROUP_CODES[third][0][0]
+            for xg in GROUP_CODES[g][0][:2 if all_second else 1]:
+                for xh in GROUP_CODES[h][0][:2 if all_second else 1]:
+                    # a long setting kept on makes the renderer emit the individual clear codes instead of a reset
+                    L = '48;2;10;20;30' if 'bg' not in (g, h) else ('38;2;10;20;30' if 'fg' not in (g, h) else '58;2;10;20;30')
+                    cases.append([[xg, xh], []])
+                    cases.append([[K, xg, xh], [K]])
+                    cases.append([[L, xg, xh], [L]])
+                    cases.append([[L, xg, xh], [L, xh], [L]])
+                    # a valid but unparsable verbatim setting makes str() the NON-optimised rendering (resets), so that
+                    # simplify() first parses resets and then its own clear codes
+                    cases.append([[L, '4:3', xg, xh], [L, '4:3']])
+    return cases
+
+
+def gen_roundtrip_family(m, rng, job):
+    g = Gen(m, rng, W_BASE)
+    cases = job['cases']
+    styles = cases[(job['base'] - 1 + job['_k']) % len(cases)]
+    r = build_styles(g, styles, shared=rng.random() < 0.7)
+    g.do({'op': 'reparse', 'r': r, 'cls': 'S'})
+    c = g.do({'op': 'copy', 'r': r})['res'][0]
+    g.do({'op': 'simplify', 'r': c})
+    g.do({'op': 'simplify', 'r': c})
+    # the same value reached through its non-optimised rendering (resets instead of clear codes)
+    e = g.do({'op': 'reparse', 'r': r, 'cls': 'S', 'opt': False})
+    if e['out'] == 'ok' and e['res']:
+        g.do({'op': 'simplify', 'r': e['res'][0]})
+        g.do({'op': 'simplify', 'r': e['res'][0]})
+    return g.oplist, {}
 
 
 def gen_render_family(m, rng, job):
